@@ -60,7 +60,7 @@ def op_operators(task):
                 if r2[0] == "exc" or [k for k, _ in r2[0]] != [k for k, _ in toks]:
                     viol.append({"what": f"{s!r} respelled {v!r}: kinds {r2[0] if r2[0] != 'exc' else r2} vs {toks}",
                                  "text": v})
-    return {"cases": cases, "violations": viol[:10]}
+    return {"cases": cases, "violations": viol[:200]}
 
 
 def respell(text, rnd, table):
@@ -152,7 +152,7 @@ def op_programs(task):
             if k1 != k2:
                 viol.append({"what": f"{name}: token kinds/values change when {len(picks)} line splices ({sp!r}) are "
                                      f"inserted between tokens", "a": text, "b": t2, "name": name})
-    return {"cases": cases, "violations": viol[:6]}
+    return {"cases": cases, "violations": viol[:200]}
 
 
 # ------------------------------------------------------------------ C11: literals
@@ -293,7 +293,7 @@ def op_literals(task):
         else:
             fam = "int:" + re.sub(r"\d+", "D", low)[:8]
         by_shape.setdefault(fam, v)
-    return {"cases": cases, "violations": list(by_shape.values())[:15], "nviol": len(viol)}
+    return {"cases": cases, "violations": list(by_shape.values())[:200], "nviol": len(viol)}
 
 
 def op_one(task):
